@@ -17,11 +17,21 @@ ARGS = {
     'word': 'foo', 'number': '3', 'negative': '-5', 'huge': '99999999999999999999', 'zero': '0', 'flag': '--bogus',
     'empty': "''", 'json-obj': '%{a: 1}', 'json-arr': '%[1,2,3]', 'block': '{ out x }', 'unicode': "'é世\U0001F600'",
     'range': '[1..3]', 'path': '/nonexistent/dir/file', 'var-undef': '$undefinedvar_xyz', 'equals': 'a=b', 'slash-idx': '/9/9',
+    # row / column / key selectors of the table indexer
+    'row0': '*0', 'row2': '*2', 'rowbig': '*99999999999', 'rowmax': '*9223372036854775807', 'rowover': '*99999999999999999999',
+    'oldrow': '1:', 'oldrowbig': '99999999999:', 'col0': ':0', 'colbig': ':99', 'colletter': '*c', 'colZ': '*Z', 'colname': 'b', 'minus1': '-1',
 }
+INDEX_SHAPES = ['row0', 'row2', 'rowbig', 'rowmax', 'rowover', 'oldrow', 'oldrowbig', 'col0', 'colbig', 'colletter', 'colZ', 'colname', 'minus1',
+                'zero', 'number', 'negative', 'huge', 'word', 'empty']
+INDEX_CMDS = ['[', '![', '[[']
 STDIN = {
     'none': None, 'empty': "tout str ''", 'lines': 'a [a,b,c]', 'json-array': 'tout json [1,2,3]', 'json-object': "tout json ({\"a\":1})",
     'bad-json': "tout json '{[,'", 'number': 'tout int 5', 'yaml': "tout yaml 'a: [1,2'",
+    'csv': 'tout csv "a,b,c\\n1,2,3\\n4,5,6\\n"', 'csv-ragged': 'tout csv "a,b\\n1\\n2,3,4\\n"', 'csv-empty': "tout csv ''",
+    'generic': 'tout * "a b c\\n1 2 3\\n4 5 6\\n"', 'jsonl-table': 'tout jsonl "[\\"a\\",\\"b\\"]\\n[1,2]\\n[3,4]"',
+    'jsonl-bad': "tout jsonl '[\"a\",\"b\"]\\n[1,2]\\n[3,4]'", 'jsonl-empty-row': 'tout jsonl "[]\\n[1,2]\\n[3,4]"',
 }
+TABLE_STDIN = ['csv', 'csv-ragged', 'csv-empty', 'generic', 'jsonl-table', 'jsonl-bad', 'jsonl-empty-row']
 TWO = ['[', '[[', '![', 'a', 'ja', 'alter', 'append', 'prepend', 'cast', 'format', 'left', 'right', 'prefix', 'suffix', 'match', 'regexp',
        'round', 'set', 'global', 'alias', 'function', 'private', 'args', 'if', 'foreach', 'for', 'while', 'switch', 'break', 'return',
        'continue', 'pipe', '!pipe', 'struct-keys', 'addheading', 'count', 'tabulate', 'jsplit', 'mjoin', 'expr', 'datetime', 'rand', 'tmp', 'select']
@@ -67,12 +77,22 @@ TEMPLATES = [
     'tout json [1,2,3] -> format xml; tout notatype x -> format json',
     'a [1..3] -> msort -> mtac -> [9] -> cast int',
     '<nonexistentpipe%d> -> cat',
+    'a [1..3] -> [ 1', 'a [1..3] -> [[ /1', 'a [1..3] -> ![ 1',
+    # the table of named pipes stays usable after the linger timers of repeated closes have fired
+    'pipe npc%d; !pipe npc%d; !pipe npc%d; sleep 3; !pipe npc%d; out done',
+    'pipe npd%d; !pipe npd%d; !pipe npd%d; sleep 3; runtime --named-pipes -> null; out done',
+    'pipe npe%d; !pipe npe%d npe%d; sleep 3; pipe npf%d; out x -> <npf%d>; !pipe npf%d; out done',
+    # row selectors of the table indexer: below the first row, far above the last one, out of order
+    'tout csv "a,b,c\\n1,2,3\\n4,5,6\\n" -> [*3 *0]',
+    'tout csv "a,b,c\\n1,2,3\\n4,5,6\\n" -> [*99999999999999999999 *1]',
+    'tout csv "a,b,c\\n1,2,3\\n4,5,6\\n" -> [*0]',
 ]
 
 
 def render(c):
     a = ' '.join(ARGS[x] for x in c['args'])
     cmd = '%s %s' % (c['cmd'], a)
+    cmd += {'[': ' ]', '![': ' ]', '[[': ' ]]'}.get(c['cmd'], '')
     s = STDIN[c['stdin']]
     return cmd if s is None else '%s -> %s' % (s, cmd)
 
@@ -80,8 +100,9 @@ def render(c):
 def run(ck, replay=None):
     quick = ck.tier == 'quick'
     ck.cov['rule'] = ('Robust.tla enumerates (builtin from the real registry minus an explicit deny-list of interactive/process-killing/network builtins) x '
-                      '(0, 1 or - for structured builtins - 2 arguments of 16 hostile shapes) x (8 stdin shapes); a seeded sample (quick) or all rows '
-                      '(thorough) plus 40 hand-written error-path programs (named-pipe misuse with the real 2 s timers, malformed signatures, bad '
+                      '(0, 1 or - for structured builtins - 2 arguments of 29 hostile shapes) x (13 stdin shapes), and the index family: ([, ![, [[) x (one selector or '
+                      'every ordered pair of 19 row / column / key selectors) x (7 tabular stdin shapes: csv, ragged csv, empty csv, generic, jsonl, malformed jsonl, jsonl with an empty row), run completely in '
+                      'both tiers; a seeded sample (quick) or all rows (thorough) of the rest plus 49 hand-written error-path programs (named-pipe misuse with the real 2 s timers, malformed signatures, bad '
                       'casts, bad block names, out-of-range indexes, unbalanced quotes, bad flag tables) are executed in child processes with a '
                       'per-program deadline; a seeded subset also runs through the real `murex -c` binary.  Outcome rule from the specification: '
                       'ok | error (exit != 0); `panic caught`, `Murex has crashed`, death of the process or a missed deadline are violations.  '
@@ -97,8 +118,9 @@ def run(ck, replay=None):
     two = [b for b in TWO if b in builtins]
     def tset(xs):
         return '{' + ', '.join(json.dumps(x) for x in xs) + '}'
-    cfg = 'CONSTANTS\n  Builtins = %s\n  ArgShapes = %s\n  StdinShapes = %s\n  TwoArgBuiltins = %s\n' % (
-        tset(builtins), tset(sorted(ARGS)), tset(sorted(STDIN)), tset(two))
+    cfg = ('CONSTANTS\n  Builtins = %s\n  ArgShapes = %s\n  StdinShapes = %s\n  TwoArgBuiltins = %s\n  IndexCmds = %s\n  IndexShapes = %s\n'
+           '  TableStdin = %s\n') % (tset(builtins), tset(sorted(ARGS)), tset(sorted(STDIN)), tset(two), tset([c for c in INDEX_CMDS if c in builtins]),
+                                     tset(INDEX_SHAPES), tset(TABLE_STDIN))
     wd = os.path.join(ck.scratch, 'gen')
     r = common.tlc('Robust', 'Run.cfg', wd, workers=1, timeout=900, files={'Run.cfg': cfg})
     if r.violated:
@@ -107,10 +129,11 @@ def run(ck, replay=None):
     ck.cov['table_rows'] = len(cases)
     rng = random.Random(ck.seed)
     rng.shuffle(cases)
-    if quick:
-        cases = cases[:1500]
-    else:
-        cases = cases[:int(os.environ.get('VERIF_C19_ROWS', '30000'))]
+    # the index family is run completely in both tiers, the rest is sampled
+    idx = [c for c in cases if c['fam'] == 'index']
+    rest = [c for c in cases if c['fam'] != 'index']
+    ck.cov['index_family_rows'] = len(idx)
+    cases = idx + (rest[:1500] if quick else rest[:int(os.environ.get('VERIF_C19_ROWS', '30000'))])
     jobs = []
     meta = {}
     cid = 1
@@ -118,7 +141,7 @@ def run(ck, replay=None):
         cid += 1
         src = render(c)
         jobs.append({'id': cid, 'src': src, 'timeout_ms': 15000})
-        meta[cid] = ('table:%s:%s:%s' % (c['cmd'], '+'.join(c['args']) or '-', c['stdin']), src)
+        meta[cid] = ('%s:%s:%s:%s' % (c['fam'], c['cmd'], '+'.join(c['args']) or '-', c['stdin']), src)
     tjobs = []
     for t in TEMPLATES:
         cid += 1
@@ -143,7 +166,16 @@ def run(ck, replay=None):
             raise common.Infra('no result for %s' % key)
         if x['status'] == 'crashed':
             first = [l for l in x.get('stderr', '').split('\n') if l.startswith('panic:') or l.startswith('fatal error:') or 'SIGSEGV' in l]
-            ck.violation('crashed:' + key, 'the interpreter process died: %s' % (first[:1] or x.get('stderr', '')[-200:]), {'src': src, 'stderr': x.get('stderr', '')[-1500:]})
+            # many programs share one interpreter process: the one in flight is the culprit only if it also kills a process of its own
+            alone = prog.run_programs(ck, [{'id': 1, 'src': src, 'timeout_ms': 60000}], shards=1, tag='c19k').get(1, {})
+            if alone.get('status') == 'crashed':
+                ck.violation('crashed:' + key, 'the interpreter process died: %s' % (first[:1] or x.get('stderr', '')[-200:]), {'src': src, 'stderr': x.get('stderr', '')[-1500:]})
+            else:
+                frames = [l.strip() for l in x.get('stderr', '').split('\n') if l.startswith('github.com/lmorg/murex/')]
+                where = frames[0].split('(')[0].replace('github.com/lmorg/murex/', '') if frames else '?'
+                ck.violation('crashed-late:%s@%s' % ((first[:1] or ['?'])[0], where),
+                             'the interpreter process died in a goroutine left behind by an earlier program (the program in flight, `%s`, does not crash alone): %s'
+                             % (src[:80], first[:1]), {'src_in_flight': src, 'stderr': x.get('stderr', '')[-3000:]})
         elif x['status'] == 'hung':
             # rule 4.5: a missed deadline is believed only if the program, run alone, misses a 4x deadline twice more
             again = 0
